@@ -5,6 +5,7 @@ from ..lib import (FuncView, pm, method_calls, one, at_least, stores_to_self_att
 from .. import norm, schema
 
 AGENT = 'bp/agent.py'
+UTIL = 'bp/util.py'
 BLOCKS = 'bp/encoding/blocks.py'
 BUNDLE = 'bp/encoding/bundle.py'
 
@@ -14,7 +15,8 @@ def check(chk, thorough=False):
     chk.run('C08.a', 'R-ORDER', 'the CRC update precedes the encode which precedes the one transmission site, with nothing in between that can change the bundle', lambda ob: c08a(tree, ob), floor=3)
     chk.run('C08.b', 'R-ORDER', 'on receive the CRC gate (check, return on failure) dominates the seen-set add, every recorded action, the chain, reporting and forwarding', lambda ob: c08b(tree, ob), floor=6)
     chk.run('C08.c', 'sibling', 'update_crc and check_crc compute the CRC the same way (zeroed field of the right width, whole block, same algorithm table); both all-block loops cover primary and every canonical block', lambda ob: c08c(tree, ob), floor=8)
-    chk.run('C08.e', 'R-SCHEMA', 'the decode is faithful to the CBOR type of every item (integer, byte string and endpoint ID fields refuse items of another type), so the re-encoding the CRC check signs is the block that arrived', lambda ob: c08e(tree, ob), floor=27)
+    chk.run('C08.e', 'R-SCHEMA', 'the decode is faithful to the CBOR type of every item (integer, byte string and endpoint ID fields refuse items of another type), so the re-encoding the CRC check signs is the block that arrived', lambda ob: c08e(tree, ob), floor=28)
+    chk.run('C08.f', 'R-TRUTH', 'decoding keeps every bit of flags and values, so the re-encoding that the CRC check signs is the block that arrived (= C02.e)', lambda ob: __import__('sa.props.c02', fromlist=['c02e']).c02e(tree, ob), floor=20)
     chk.run('C08.d', 'R-SCHEMA', 'CRC types 1/2 are CRC-16/X.25 big-endian 2 octets and CRC-32C big-endian 4 octets; the CRC field exists iff the type is non-zero', lambda ob: c08d(tree, ob), floor=6)
 
 
@@ -68,6 +70,24 @@ def c08b(tree, ob):
         return
     chk_st = checks[0]
     var = src(chk_st.targets[0])
+    # what is checked is what arrived: nothing ahead of the check builds the bundle (a build re-generates block data from
+    # parsed payloads, e.g. a leniently parsed administrative record, so a corrupted payload is "repaired" before its CRC
+    # is looked at).  Ahead of the check the receive path only logs repr(ctr): BundleContainer.__repr__ must not build.
+    BUILDERS = ('show2', 'build', 'do_build', '__bytes__', 'fill_fields', 'update_all_crc', 'update_crc', 'command', 'psdump', 'pdfdump', 'canvas_dump', 'hexdump', 'ensure_block_type_specific_data')
+    before = [c for c in calls_in(fv.func) if fv.node(c) is not None and fv.dominates(c, chk_st)[0] and c is not chk_st.value]
+    for c in before:
+        nm = (call_name(c) or '').split('.')[-1]
+        if nm in BUILDERS or nm == 'bytes':
+            ob.violate(AGENT, fv.qual, src(c)[:60] + ' ahead of the CRC check', 'the bundle is built before its CRCs are checked: block data is regenerated from parsed payloads and the check no '
+                       'longer sees the octets that arrived', c)
+    for (rel, cname) in ((UTIL, 'BundleContainer'),):
+        for m in [x for x in tree.klass(rel, cname).body if isinstance(x, ast.FunctionDef) and x.name in ('__repr__', '__str__')]:
+            bad = [c for c in calls_in(m) if (call_name(c) or '').split('.')[-1] in BUILDERS or (call_name(c) or '') == 'bytes']
+            if bad:
+                ob.violate(rel, cname + '.' + m.name, src(bad[0])[:60], 'the text form of a container, logged for every received bundle ahead of the CRC check, builds the bundle: block data is '
+                           'regenerated from parsed payloads, so a corrupted administrative payload is re-encoded to its signed form before check_all_crc() looks at it', bad[0])
+            else:
+                ob.site(rel, m, '{}.{} does not build the bundle'.format(cname, m.name))
     sites = []
     sites += [c for c in calls_in(fv.func) if pm('self._seen_bundle_ident.add($i)', c) is not None]
     sites += method_calls(fv.func, 'record_action')
@@ -220,6 +240,24 @@ def c08d(tree, ob):
         ob.site(BLOCKS, cls, 'CRC type code points 0/1/2')
     defn = [n for n in cls.body if isinstance(n, ast.Assign) and src(n.targets[0]) == 'CRC_DEFN']
     d = one(defn, 'CRC_DEFN table', ob)
+    if isinstance(d.value, ast.Call) and isinstance(d.value.func, ast.Name) and tree.has_func(BLOCKS, d.value.func.id):
+        # the table is built by a helper: the one thing decided here is whether its closures capture the loop variable
+        # (python binds names late: every 'encode' made in a loop packs with the format of the LAST entry)
+        hf = tree.func(BLOCKS, d.value.func.id)
+        late = []
+        for loop in [n for n in ast.walk(hf) if isinstance(n, (ast.For, ast.comprehension))]:
+            tgt = {x.id for x in ast.walk(loop.target) if isinstance(x, ast.Name)}
+            body = loop.body if isinstance(loop, ast.For) else []
+            for st in body:
+                for lam in [x for x in ast.walk(st) if isinstance(x, (ast.Lambda, ast.FunctionDef))]:
+                    params = {a.arg for a in lam.args.args + lam.args.kwonlyargs}
+                    free = {x.id for x in ast.walk(lam.body if isinstance(lam, ast.Lambda) else lam) if isinstance(x, ast.Name) and isinstance(x.ctx, ast.Load)} - params
+                    if free & tgt:
+                        late.append((lam, sorted(free & tgt)))
+        if late:
+            ob.violate(BLOCKS, d.value.func.id, src(late[0][0])[:60], 'the CRC table is built in a loop and its encode function refers to the loop variable {} when it is CALLED, not when it was made: every CRC '
+                       'type packs its value with the format of the last entry (CRC-16 blocks leave with a 4-octet CRC field)'.format('/'.join(late[0][1])), late[0][0])
+            return
     ob.require(isinstance(d.value, ast.Dict), 'CRC_DEFN is not a dict literal')
     want = {1: ('x-25', '>H'), 2: ('crc-32c', '>L')}
     alt_fmt = {'>H': ('>H', '!H'), '>L': ('>L', '!L', '>I', '!I')}
@@ -374,6 +412,20 @@ def c08e(tree, ob):
     consts = {'EidField.TypeCode.dtn': 1, 'EidField.TypeCode.ipn': 2, 'self.TypeCode.dtn': 1, 'self.TypeCode.ipn': 2}
     arg = m.args.args[2].arg
     eid_foreign = [b'\x01\x00', [True, '//a/'], [1.0, '//a/'], [1, True], [1, False], [1, 1.5], [1, b'x'], [1, [1]], [2, b'\x01\x02'], [2, [True, 2]], [2, [1.0, 2]], [2, '12'], [2.0, [1, 2]]]
+    # ... and only the one spelling the encoder produces: a decoded EID is returned only behind the comparison of its
+    # re-encoding with the item that arrived (surplus array members, "none" as text, a node name without its slash all decode
+    # to an EID that is sent on as other octets -- the octets the sender's CRC was computed over)
+    fe = FuncView(tree, frel, 'EidField.m2i')
+    norm_checks = [n for n in fe.cfg.nodes if n.kind == 'cond' and (pm('self.i2m($p, $e) != list({})'.format(arg), n.ast) is not None or pm('list({}) != self.i2m($p, $e)'.format(arg), n.ast) is not None
+                                                                   or pm('self.i2m($p, $e) != {}'.format(arg), n.ast) is not None)]
+    decoded = [r for r in walk_local(fe.func) if isinstance(r, ast.Return) and r.value is not None and not (isinstance(r.value, ast.Constant) and r.value.value is None) and src(r.value) != arg]
+    ob.require(decoded, 'EidField.m2i returns a decoded EID')
+    for r in decoded:
+        if norm_checks and fe.cfg.must_pass(fe.cfg.entry, fe.node(r), set(norm_checks), include_exc=False)[0] and any(isinstance(x, ast.Raise) and any('self.i2m(' in t for (t, p_) in (fe.facts(x) or ())) for x in walk_local(fe.func)):
+            ob.site(frel, r, 'EidField.m2i: returned only when the re-encoding equals the item received')
+        else:
+            ob.violate(frel, 'EidField.m2i', src(r)[:60] + '  (no comparison of self.i2m(...) with the item)', 'an endpoint ID is decoded from an item that the encoder would spell differently (surplus array members ignored, '
+                       '"none" as text, node name without its slash): the block re-encodes to the octets the sender protected although other octets arrived, so a burst of the CRC width passes', r)
     for item in eid_foreign:
         out = absint.run(m.body, {arg: item}, consts)
         if refused(out):
